@@ -681,6 +681,25 @@ func (g *Gen) DriveC03() {
 			g.honestRun(logname, user, h, []SOutSpec{{Kind: SigOk, Certs: []int{w.kind}}})}
 		g.Emit("certificate-window/"+w.name, SessionSpec{Dir: g.DirFor(logname, 1, user, user), Store0: g.Store0(2), Runs: runs})
 	}
+	// the CA's answer travels as in production: a CA server sends authorized_keys text, the RA's real crypki.Signer
+	// reads it - one, two or three certificates, the text with or without a final newline
+	for i, shape := range []struct {
+		n     int
+		final bool
+	}{{1, true}, {1, false}, {2, true}, {2, false}, {3, false}, {3, true}} {
+		logname, user := LogNames[i%4], users[i%len(users)]
+		h := []HandlerSpec{g.Regular(u64(3600), FullKeyIDs())}
+		var kinds []int
+		var cms []string
+		for k := 0; k < shape.n; k++ {
+			kinds = append(kinds, CertGood)
+			cms = append(cms, core.Pick(g.R, "a", "touch", "label-x"))
+		}
+		out := SOutSpec{Kind: SigOk, Certs: kinds, Comments: cms, ViaCrypki: true, NoFinalNewline: !shape.final}
+		runs := []RunSpec{g.honestRun(logname, user, h, OneCert()), g.honestRun(logname, user, h, []SOutSpec{out}), g.honestRun(logname, user, h, []SOutSpec{out})}
+		g.Emit(fmt.Sprintf("through-the-ca-server/%d-certificates/final-newline=%v", shape.n, shape.final),
+			SessionSpec{Dir: g.DirFor(logname, 1, user, user), Store0: g.Store0(2), Runs: runs})
+	}
 	for i := 0; i < c.N(110, 3000); i++ {
 		logname := LogNames[g.R.Intn(len(LogNames))]
 		user := users[g.R.Intn(len(users))]
@@ -803,6 +822,18 @@ func (g *Gen) DriveC04() {
 				}))
 			}
 		}
+	}
+	// the CA server answers OK but delivers nothing (an empty key field, white space only), or one certificate, through
+	// the RA's real crypki.Signer: a CA that delivered nothing is a failed CA
+	for i, v := range []SOutSpec{
+		{Kind: SigOk, Certs: []int{CertGood}, ViaCrypki: true, EmptyKey: true},
+		{Kind: SigOk, Certs: []int{CertGood}, ViaCrypki: true},
+		{Kind: SigOk, Certs: []int{CertGood, CertGood}, ViaCrypki: true, NoFinalNewline: true},
+	} {
+		reg := g.Regular(u64(3600), FullKeyIDs())
+		prior := g.honestRun(logname, user, []HandlerSpec{reg}, []SOutSpec{{Kind: SigOk, Certs: []int{CertGood, CertGood}}})
+		r := g.honestRun(logname, user, []HandlerSpec{reg}, []SOutSpec{v})
+		g.Emit(fmt.Sprintf("through-the-ca-server/%d", i), SessionSpec{Dir: dir, Store0: g.Store0(2), Runs: []RunSpec{prior, r}})
 	}
 	// panics and failures inside every Handler / AgentKey method of a foreign handler
 	one := SOutSpec{Kind: SigOk, Certs: []int{CertGood}}
